@@ -70,7 +70,18 @@ func (codec *wsCodec) ReadMessage() (*jsonrpc2.Message, error) {
 	if err != nil {
 		return nil, err
 	}
-	return codec.inner.ReadMessage()
+	msg, err := codec.inner.ReadMessage()
+	if err != nil {
+		return msg, err
+	}
+	// The JSON decoder stops reading at the end of the value. Whatever is left
+	// of the websocket message (the encoder's trailing newline, when a large
+	// message was split into several frames) must be consumed before the next
+	// frame header can be read.
+	if err := codec.r.Discard(); err != nil {
+		return nil, err
+	}
+	return msg, nil
 }
 
 func (codec *wsCodec) WriteMessage(msg *jsonrpc2.Message) error {
